@@ -25,6 +25,9 @@ func decodeAny(ctype string, raw []byte) (any, bool) {
 		}
 		return v, true
 	}
+	if err := msgpack.NewDecoder(bytes.NewReader(raw)).Skip(); err != nil {
+		return nil, false
+	}
 	dec := msgpack.NewDecoder(bytes.NewReader(raw))
 	if err := dec.Decode(&v); err != nil {
 		return nil, false
